@@ -25,7 +25,8 @@ fn build(poison: &[u8], place: usize) -> Vec<BlockSpec> {
     // 4 blocks; block 2 holds the transaction under attack; blocks 1 and 3 hold unrelated transactions
     let other = |tag: u8| TxSpec::new(vec![TxIn::new([tag; 32], 1, vec![0x51, tag])], vec![TxOut::new(1000 + tag as u64, vec![0x6a, 0x02, 0x68, 0x69]), TxOut::new(77, p2pkh_script(&[tag; 20]))]);
     let mut victim = TxSpec::new(vec![TxIn::new([0x33; 32], 0, vec![0x51]), TxIn::new([0x34; 32], 2, vec![])],
-        vec![TxOut::new(11, vec![0x51]), TxOut::new(12, p2pkh_script(&[0x44; 20])), TxOut::new(13, p2pkh_script(&[0x45; 20]))]);
+        vec![TxOut::new(11, vec![0x51]), TxOut::new(12, p2pkh_script(&[0x44; 20])), TxOut::new(13, p2pkh_script(&[0x45; 20])),
+             TxOut::new(0, vec![0x6a, 0x04, 0x6b, 0x65, 0x65, 0x70])]);   // OP_RETURN "keep": its opreturn line must not depend on output 0
     match place { 0 => victim.outputs[0].script = poison.to_vec(), 1 => victim.inputs[0].script_sig = poison.to_vec(),
         _ => victim.witness = Some(vec![vec![poison.to_vec(), vec![]], vec![]]) }
     let mut chain = make_chain(4, &mut |h| match h { 1 => vec![other(1)], 2 => vec![other(2), victim.clone(), other(3)], 3 => vec![other(4)], _ => vec![] });
@@ -46,7 +47,9 @@ fn observe(chain: &[BlockSpec], coin: &str, place: usize) -> std::result::Result
     let m = Balances::build_subcommand().get_matches_from(vec!["balances", &p]);
     drive_with(d.path(), coin, 0, None, false, Box::new(Balances::new(&m).map_err(|e| e.to_string())?))?;
     drive_with(d.path(), coin, 0, None, false, Box::new(SimpleStats::default()))?;
-    drive_with(d.path(), coin, 0, None, false, Box::new(OpReturn))?;
+    let mut op_err: Option<String> = None;
+    let printed = capture_stdout(|| { if let Err(e) = drive_with(d.path(), coin, 0, None, false, Box::new(OpReturn)) { op_err = Some(e); } });
+    if let Some(e) = op_err { return Err(e); }
     let victim = hex_rev(&chain[2].txs[2].txid());
     let rd = |n: &str| csv_lines(&out.path().join(n));
     for l in rd("blocks-0-3.csv") { let c: Vec<&str> = l.split(';').collect(); obs.push(format!("B;{};{};{};{};{}", c[1], c[2], c[6], c[7], c[8])); }
@@ -55,6 +58,16 @@ fn observe(chain: &[BlockSpec], coin: &str, place: usize) -> std::result::Result
     for l in rd("tx_out-0-3.csv") { let c: Vec<&str> = l.split(';').collect(); if c[0] == victim && place == 0 && c[1] == "0" { continue; } obs.push(format!("O;{};{};{};{}", c[1], c[2], c[3], c[4])); }
     for l in rd("unspent-0-3.csv") { let c: Vec<&str> = l.split(';').collect(); if c[0] == victim && place == 0 && c[1] == "0" { continue; } obs.push(format!("U;{};{};{};{}", c[1], c[2], c[3], c[4])); }
     for l in rd("balances-0-3.csv") { obs.push(format!("A;{}", l)); }
+    // opreturn lines of this chain's transactions (other threads may print too: select by txid), payload column only,
+    // the poisoned output's own line excluded
+    let ids: Vec<String> = chain.iter().flat_map(|b| b.txs.iter().map(|t| hex_rev(&t.txid()))).collect();
+    let mut n_keep = 0;
+    for l in printed.lines() { if let Some(id) = ids.iter().find(|id| l.contains(id.as_str())) {
+        let data = l.split("data: ").nth(1).unwrap_or("");
+        if *id == victim && data != "keep" { continue; }
+        if *id == victim { n_keep += 1; }
+        obs.push(format!("P;{}", data)); } }
+    obs.push(format!("P-keep-lines;{}", n_keep));
     obs.sort();
     Ok(obs)
 }
